@@ -4037,6 +4037,13 @@ func (ff *FuncFacts) containsFuncFalse(st *State, call *ast.CallExpr) *State {
 		if obj == nil {
 			return st
 		}
+		// a declared function of this package: func isOp(c Client) bool { return E }
+		if fobj, isFn := obj.(*types.Func); isFn {
+			if src := ff.eng.p.SrcOfFunc(fobj); src != nil && src.Decl != nil && src.Decl.Recv == nil && src.Pkg == ff.fs.Pkg && src.Decl.Body != nil {
+				lit = &ast.FuncLit{Type: src.Decl.Type, Body: src.Decl.Body}
+			}
+			break
+		}
 		n := 0
 		ast.Inspect(ff.fs.Root().Body(), func(m ast.Node) bool {
 			switch x := m.(type) {
